@@ -233,8 +233,8 @@ Definition ev_LogNode := Eval vm_compute in
   [C "s.renderBlock" [R "node.Body"]; EvIf [] [C "Logger.Print" [OTH]] []].
 (* evalPrint: the argument is WALKED (s.node stays inside it); per directive: name and arity checked, its arguments
    evaluated, the directive applied; then one escaped or one plain write.
-   DIFF: [print_dirs] evaluates the arguments of ALL directives before the first is applied ([print_writes]); when
-   an Apply fails, Go has not evaluated the arguments of the later directives (see WalkTieProbes.v). *)
+   [print_dirs] follows that order (each directive applied right after its own arguments: when an Apply fails the
+   arguments of the later directives have not been evaluated; probe_Print_apply_order in WalkTieProbes.v). *)
 Definition ev_PrintNode := Eval vm_compute in
   [INL "evalPrint"
      [C "s.walk" [R "node.Arg"]; IFERR;
